@@ -41,6 +41,7 @@ Section Proofs.
   Notation step_m := (step_m mul sub).
   Notation step_p := (step_p mul sub).
   Notation step_msl := (step_msl sub).
+  Notation fx_values := (@fx_values A).
 
   (* ------------------------------------------------------------------ generic list facts *)
   Lemma mapi_length {X Y} (f : nat -> X -> Y) k0 l : length (mapi f k0 l) = length l.
@@ -842,6 +843,158 @@ Section Proofs.
     - rewrite scatter_notin.
       + rewrite fsum_none; [ring|]. intros ls Hl. apply Nat.eqb_neq. apply Hno. exact Hl.
       + intros w Hw. apply in_map_iff in Hw. destruct Hw as [ls [<- Hl]]. simpl. apply Hno. exact Hl.
+  Qed.
+
+  (* ------------------------------------------------------------------ result extraction, grouped mean *)
+  Lemma sum_const (v : A) {X} (l : list X) :
+    sumlist (map (fun _ => v) l) = v * sumlist (map (fun _ => 1) l).
+  Proof. induction l; simpl; [ring|]. rewrite IHl. ring. Qed.
+
+  (* ext-grid share: the reported flows of the in-service p/pt ext grids on node i add up to the slack mass of i *)
+  Lemma extgrid_share_lemma (div : A -> A -> A) (pos : Z -> nat) (rows : list (@eg_row)) (msl : list A) (i : nat) :
+    (forall a, div a (eg_count zero one add pos i rows) * eg_count zero one add pos i rows = a) ->
+    sumlist (map (eg_value zero one add div pos rows msl) (eg_at pos i rows)) = nth i msl 0.
+  Proof.
+    intros Hd.
+    assert (E : map (eg_value zero one add div pos rows msl) (eg_at pos i rows)
+                = map (fun _ => div (nth i msl 0) (eg_count zero one add pos i rows)) (eg_at pos i rows)).
+    { apply map_ext_in. intros r Hr. unfold eg_at in Hr. apply filter_In in Hr. destruct Hr as [_ Hr].
+      apply andb_true_iff in Hr. destruct Hr as [_ Hr]. apply Nat.eqb_eq in Hr.
+      unfold Model.eg_value. now rewrite Hr. }
+    rewrite E, sum_const. apply Hd.
+  Qed.
+
+  (* rows that are not (p/pt and in service) never receive a value; active rows always do *)
+  Lemma extgrid_rows_lemma (div : A -> A -> A) (pos : Z -> nat) (rows : list (@eg_row)) (msl : list A) old k r :
+    length old = length rows -> nth_error rows k = Some r ->
+    nth_error (extgrid_results zero one add div pos rows msl old) k =
+    Some (if eg_active r then Some (eg_value zero one add div pos rows msl r) else nth k old None).
+  Proof.
+    intros Hl Hr. unfold Model.extgrid_results. rewrite nth_error_map.
+    assert (C : forall (a : list (@eg_row)) (b : list (option A)) k r, length b = length a -> nth_error a k = Some r ->
+                nth_error (combine a b) k = Some (r, nth k b None)).
+    { induction a as [|x a IH]; intros b k0 r0 H1 H2; [destruct k0; discriminate|].
+      destruct b as [|y b]; [discriminate|]. destruct k0; simpl in *; [now inversion H2|]. apply IH; auto. }
+    rewrite (C rows old k r Hl Hr). reflexivity.
+  Qed.
+
+  (* ConstFlow.extract_results vs the LOAD column: at a node all of whose rows are supplied, what the pit aggregated
+     (cf_value, theorem load_aggregation) is sign * the sum of the reported values *)
+  Lemma constflow_reported_lemma (sign : A) (pos : Z -> nat) (rows : list (@cf_row A)) (i : nat) :
+    sumlist (map (cf_value zero one mul sign) (filter (fun r => Nat.eqb (pos (cf_junction r)) i) rows)) =
+    sign * sumlist (map (reported_or_zero zero mul) (filter (fun r => Nat.eqb (pos (cf_junction r)) i) rows)).
+  Proof.
+    induction rows as [|r rows IH]; simpl; [ring|].
+    destruct (Nat.eqb (pos (cf_junction r)) i); simpl; auto. rewrite IH.
+    unfold Model.cf_value, Model.reported_or_zero. destruct (cf_in_service r); ring.
+  Qed.
+
+  Lemma constflow_rows_lemma (supplied : Z -> bool) (rows : list (@cf_row A)) old k r :
+    length old = length rows -> nth_error rows k = Some r ->
+    nth_error (constflow_results mul supplied rows old) k =
+    Some (if cf_in_service r && supplied (cf_junction r) then Some (cf_mdot r * cf_scaling r) else nth k old None).
+  Proof.
+    intros Hl Hr. unfold Model.constflow_results. rewrite nth_error_map.
+    assert (C : forall (a : list (@cf_row A)) (b : list (option A)) k r, length b = length a -> nth_error a k = Some r ->
+                nth_error (combine a b) k = Some (r, nth k b None)).
+    { induction a as [|x a IH]; intros b k0 r0 H1 H2; [destruct k0; discriminate|].
+      destruct b as [|y b]; [discriminate|]. destruct k0; simpl in *; [now inversion H2|]. apply IH; auto. }
+    rewrite (C rows old k r Hl Hr). reflexivity.
+  Qed.
+
+  (* ---- set_fixed_node_entries, grouped form *)
+  Lemma glookup_fsum l (g : list (Z * A)) : glookup zero add l g = fsum (Z.eqb l) g.
+  Proof. induction g as [|[l' s] r IH]; simpl; auto. now rewrite IH. Qed.
+
+  Lemma fsum_ext P Q (g : list (Z * A)) : (forall ls, In ls g -> P (fst ls) = Q (fst ls)) -> fsum P g = fsum Q g.
+  Proof.
+    induction g as [|[l s] r IH]; simpl; intros H; auto.
+    pose proof (H (l, s) (or_introl eq_refl)) as E. simpl in E. rewrite E, IH; auto.
+  Qed.
+
+  Lemma fixed_entries_grouped_lemma (div : A -> A -> A) (pos : Z -> nat) (rows : list (@fx_row A)) (st : @fx_state A) (i : nat) :
+    let S := fsum (fun l => Nat.eqb (pos l) i) (fx_values rows) in
+    let N := fsum (fun l => Nat.eqb (pos l) i) (fx_ones one rows) in
+    let st' := fixed_entries2 zero one add mul div pos rows st in
+    (forall r r', In r rows -> In r' rows -> fx_valid r = true -> fx_valid r' = true ->
+                  pos (fx_junction r) = pos (fx_junction r') -> fx_junction r = fx_junction r') ->
+    (i < length (fs_p st))%nat -> (i < length (fs_cnt st))%nat ->
+    ((exists r, In r rows /\ fx_valid r = true /\ pos (fx_junction r) = i) ->
+     forall a, div a (N + nth i (fs_cnt st) 0) * (N + nth i (fs_cnt st) 0) = a) ->
+    nth i (fs_p st') 0 * (N + nth i (fs_cnt st) 0) = nth i (fs_p st) 0 * nth i (fs_cnt st) 0 + S
+    /\ nth i (fs_cnt st') 0 = nth i (fs_cnt st) 0 + N.
+  Proof.
+    intros S N st' Hinj Hp Hc Hd. subst st'. unfold Model.fixed_entries2. cbn [fs_p fs_cnt].
+    set (kv := fx_values rows) in *. set (kn := fx_ones one rows) in *.
+    set (gv := sum_by_group kv). set (gn := sum_by_group kn).
+    set (P := fun l => Nat.eqb (pos l) i) in *.
+    assert (K : forall l, In l (map fst gv) -> exists r, In r rows /\ fx_valid r = true /\ fx_junction r = l).
+    { intros l Hl. apply sbg_keys in Hl. unfold kv, Model.fx_values in Hl. rewrite map_map in Hl. simpl in Hl.
+      apply in_map_iff in Hl. destruct Hl as [r [E Hr]]. apply filter_In in Hr. destruct Hr. eauto. }
+    assert (ND : NoDup (map (fun ls : Z * A => pos (fst ls)) gv)).
+    { rewrite <- (map_map fst pos). apply NoDup_map_inj; [apply sorted_NoDup, sbg_sorted|].
+      intros x y Hx Hy E. destruct (K x Hx) as [r [Hr [Hv <-]]]. destruct (K y Hy) as [r' [Hr' [Hv' <-]]]. apply Hinj; auto. }
+    assert (SV : fsum P gv = S) by (unfold S; apply sbg_fsum).
+    assert (D : (exists l0 s0, In (l0, s0) gv /\ pos l0 = i) \/ (forall ls, In ls gv -> pos (fst ls) <> i)).
+    { clear. induction gv as [|[l s] r IH]; [right; intros ls []|].
+      destruct (Nat.eq_dec (pos l) i) as [E|E]; [left; exists l, s; simpl; auto|].
+      destruct IH as [[l0 [s0 [H1 H2]]]|H]; [left; exists l0, s0; simpl; auto|].
+      right. intros ls [<-|Hin]; simpl; auto. }
+    destruct D as [[l0 [s0 [Hin Hpos]]]|Hno].
+    - (* some valid row sits on node i: its label is l0 *)
+      destruct (K l0 (in_map fst _ _ Hin)) as [r0 [Hr0 [Hv0 Hj0]]].
+      assert (NE : glookup zero add l0 gn = N).
+      { rewrite glookup_fsum. unfold gn. rewrite sbg_fsum. unfold N. apply fsum_ext.
+        intros [l o] Hl. simpl. unfold kn, Model.fx_ones in Hl. apply in_map_iff in Hl. destruct Hl as [r [E Hr]].
+        inversion E as [[E1' E2']]. subst l o. apply filter_In in Hr. destruct Hr as [Hr Hv]. unfold P.
+        destruct (Z.eqb_spec l0 (fx_junction r)) as [E1|E1].
+        - rewrite <- E1, Hpos. symmetry. apply Nat.eqb_refl.
+        - symmetry. apply Nat.eqb_neq. intros E2. apply E1. rewrite <- Hj0. apply Hinj; auto. rewrite Hj0. congruence. }
+      assert (S0 : s0 = S) by (rewrite <- SV; symmetry; apply (fsum_unique pos i gv l0 s0 ND Hin Hpos)).
+      assert (Hex : exists r, In r rows /\ fx_valid r = true /\ pos (fx_junction r) = i)
+        by (exists r0; rewrite Hj0; auto).
+      split.
+      + rewrite (scatter_in i (div (nth i (fs_p st) 0 * nth i (fs_cnt st) 0 + s0) (N + nth i (fs_cnt st) 0))).
+        * rewrite S0. apply (Hd Hex).
+        * rewrite map_map. exact ND.
+        * apply in_map_iff. exists (l0, s0). split; auto. cbn [fst snd]. rewrite Hpos, NE. reflexivity.
+        * exact Hp.
+      + rewrite (scatter_in i (nth i (fs_cnt st) 0 + N)); auto.
+        * rewrite map_map. exact ND.
+        * apply in_map_iff. exists (l0, s0). split; auto. cbn [fst snd]. rewrite Hpos, NE. reflexivity.
+    - assert (Z0 : S = 0).
+      { rewrite <- SV. apply fsum_none. intros ls Hl. apply Nat.eqb_neq. apply Hno. exact Hl. }
+      assert (N0 : N = 0).
+      { unfold N. apply fsum_none. intros [l o] Hl. simpl. apply Nat.eqb_neq. intros E.
+        unfold kn, Model.fx_ones in Hl. apply in_map_iff in Hl. destruct Hl as [r [E' Hr]]. inversion E' as [[E1' E2']]. subst l o.
+        (* a valid row on node i would give a key of gv on node i *)
+        assert (Hk : fsum (Z.eqb (fx_junction r)) gv = fsum (Z.eqb (fx_junction r)) kv) by apply sbg_fsum.
+        assert (Hin : In (fx_junction r) (map fst gv)).
+        { clear -Hr ND. unfold gv, kv, Model.fx_values.
+          assert (G : forall (kv0 : list (Z * A)) l, In l (map fst kv0) -> In l (map fst (sum_by_group kv0))).
+          { unfold Model.sum_by_group. intros kv0 l.
+            assert (G1 : forall g l0 v0, In l (map fst g) \/ l = l0 -> In l (map fst (group_add l0 v0 g))).
+            { induction g as [|[l' v'] g IH]; intros l0 v0 H; simpl.
+              - destruct H as [H|H]; [destruct H|]. subst. now left.
+              - destruct (Z.eqb_spec l0 l') as [->|Hne]; simpl.
+                + destruct H as [[H|H]|H]; auto.
+                + destruct (Z.ltb l0 l'); simpl.
+                  * destruct H as [[H|H]|H]; auto.
+                  * destruct H as [[H|H]|H]; auto. }
+            assert (G2 : forall kv1 acc, In l (map fst acc) \/ In l (map fst kv1) ->
+                         In l (map fst (fold_left (fun g lv => group_add (fst lv) (snd lv) g) kv1 acc))).
+            { induction kv1 as [|[l1 v1] kv1 IH]; intros acc H; simpl in *; [tauto|].
+              apply IH. destruct H as [H|[H|H]]; [left; apply G1; auto|left; apply G1; auto|right; exact H]. }
+            intros H. apply G2. now right. }
+          apply G. rewrite map_map. simpl. apply in_map_iff. exists r. auto. }
+        apply in_map_iff in Hin. destruct Hin as [ls [E1 Hls]]. apply (Hno ls Hls). now rewrite E1. }
+      split.
+      + rewrite scatter_notin.
+        * rewrite Z0, N0. ring.
+        * intros w Hw. apply in_map_iff in Hw. destruct Hw as [ls [<- Hl]]. simpl. apply Hno. exact Hl.
+      + rewrite scatter_notin.
+        * rewrite N0. ring.
+        * intros w Hw. apply in_map_iff in Hw. destruct Hw as [ls [<- Hl]]. simpl. apply Hno. exact Hl.
   Qed.
 
 End Proofs.
